@@ -1,14 +1,19 @@
 Require Import Coq.Strings.String.
-Require Import Base.Bytes Gen.TextTab Text.Escape Text.EscapeProofs Text.Codepage Text.CodepageProofs Text.CodepageRoundtrip Props.C10.
+Require Import Props.C10.
+Require Import Base.Bytes Gen.TextTab Text.Escape Text.EscapeProofs Text.Codepage Text.CodepageProofs Text.CodepageRoundtrip.
 Local Open Scope N_scope.
 Check c10_roundtrip : forall enc dec,
   (forall l c w, enc l c = Some w -> exists b1, 128 <= b1 /\ (w = [b1] \/ exists b2, w = [b1; b2])) ->
   (forall l, dec l [] = []) ->
   (forall l b r, is_ascii b = true -> dec l (b :: r) = b :: dec l r) ->
   (forall l c w r, enc l c = Some w -> dec l (w ++ r) = c :: dec l r) ->
-  forall s, safe enc gen_default_codepage s = true -> to_lossy_string dec (to_lossy_bytes enc s) = s.
-Check c10_safe_outside_known_class : forall enc s cur,
-  Forall (fun c => is_caret c = false /\ encodable enc c /\ no_5e_trail enc c) s -> safe enc cur s = true.
+  (forall l c b1 b2, enc l c = Some [b1; b2] -> lead l b1 = true) ->
+  (forall l c b1, enc l c = Some [b1] -> lead l b1 = false) ->
+  (forall bs, dec gen_propagate_letter bs = dec gen_default_codepage bs) ->
+  forall s, safe enc gen_default_codepage false s = true ->
+  to_lossy_string dec (to_lossy_bytes enc s) = s.
+Check c10_caret_free_text_is_safe : forall enc s cur,
+  Forall (fun c => is_caret c = false /\ encodable enc c) s -> safe enc cur false s = true.
 Check c10_ascii_passthrough_bytes : forall enc s, forallb is_ascii s = true -> to_lossy_bytes enc s = s.
 Check c10_ascii_passthrough_string : forall dec,
   (forall l bs, forallb is_ascii bs = true -> dec l bs = bs) ->
@@ -21,7 +26,7 @@ Check c10_unrepresentable_is_qmark : forall enc cur after a c b, unrepresentable
 Check c10_table_assignment : assignment_ok = true.
 Check c10_fast_path_unobservable : forall enc s, to_lossy_bytes enc s = enc_from enc gen_default_codepage false s.
 Print Assumptions c10_roundtrip.
-Print Assumptions c10_safe_outside_known_class.
+Print Assumptions c10_caret_free_text_is_safe.
 Print Assumptions c10_ascii_passthrough_bytes.
 Print Assumptions c10_ascii_passthrough_string.
 Print Assumptions c10_unrepresentable_is_qmark.
